@@ -66,22 +66,34 @@ def d1_policy(chk: Check) -> None:
     rmap = next((m for m, d in maps.items() if d == rhs), None)
     if not lmap or not rmap:
         raise AnalysisError("anchor maps of both documents not found")
-    loop = [n for n in walk_local(fi.node) if isinstance(n, ast.For)]
-    if not loop:
+    loops = [n for n in walk_local(fi.node) if isinstance(n, ast.For)]
+    if not loops:
         raise AnalysisError("conflict loop not found")
-    name = src(loop[0].target)
+    loop = []
+    name = ""
     lnode = rnode = None
-    for n in walk_local(loop[0]):
-        if isinstance(n, ast.Assign):
-            v = src(n.value)
-            if v == "{}[{}]".format(lmap, name):
-                lnode = src(n.targets[0])
-            elif v == "{}[{}]".format(rmap, name):
-                rnode = src(n.targets[0])
+    for cand in loops:
+        nm = src(cand.target)
+        ln = rn = None
+        for n in walk_local(cand):
+            if isinstance(n, ast.Assign):
+                v = src(n.value)
+                if v == "{}[{}]".format(lmap, nm):
+                    ln = src(n.targets[0])
+                elif v == "{}[{}]".format(rmap, nm):
+                    rn = src(n.targets[0])
+        if ln and rn:
+            loop, name, lnode, rnode = [cand], nm, ln, rn
+            break
     if not lnode or not rnode:
         raise AnalysisError("anchored node roles not found")
     # the loop visits exactly the names defined in both documents
     it = src(loop[0].iter)
+    if isinstance(loop[0].iter, ast.Name):
+        from sa.coords import reaching_def
+        d = reaching_def(loop[0].iter.id, loop[0])
+        if d is not None:
+            it = src(d)
     if "in {}".format(rmap) in it and "in {}".format(lmap) in it:
         chk.ok("C10-D1", fi, loop[0], "conflict candidates",
                "names defined in both documents")
@@ -102,6 +114,25 @@ def d1_policy(chk: Check) -> None:
                  "equal>`")
         return
     match_var = src(disp.test.operand)  # type: ignore[attr-defined]
+    # a conflict is declared nowhere else: any other raise of the merge
+    # exception / consultation of the mode decides "conflict" by a test of
+    # its own, which need not agree with the equality computed here
+    for n in walk_local(fi.node):
+        outside = not any(a is disp for a in ancestors(n))
+        if isinstance(n, ast.Raise) and outside:
+            chk.fail("C10-D1", fi, n, "conflict declared outside the "
+                     "dispatch",
+                     "`{}` is not governed by the equality flag `{}` of the "
+                     "conflict loop: the merge can be refused for anchors "
+                     "the loop itself finds equal".format(
+                         src(n)[:50], match_var))
+        if isinstance(n, ast.Compare) and outside and any(
+                isinstance(x, ast.Attribute) and x.attr == "STOP"
+                for x in ast.walk(n)):
+            chk.fail("C10-D1", fi, n, "policy consulted outside the "
+                     "dispatch",
+                     "`{}` consults the policy outside the dispatch guarded "
+                     "by `not {}`".format(src(n)[:60], match_var))
     # the equality flag compares the two nodes (value and tag for tagged)
     eq_defs = [src(n.value) for n in walk_local(loop[0])
                if isinstance(n, ast.Assign) and
@@ -173,7 +204,8 @@ def d2_unique(chk: Check) -> None:
     prog = chk.prog
     chk.rule("C10-D2", "_calc_unique_anchor returns a name that its loop "
              "has tested to be outside the known names; the caller passes "
-             "the union of both documents' anchor names", floor=2)
+             "the union of both documents' anchor names; names handed out in "
+             "one pass are pairwise distinct", floor=3)
     fi = prog.func("Merger._calc_unique_anchor")
     chk.analysed(fi)
     known = fi.params()[2]
@@ -202,7 +234,69 @@ def d2_unique(chk: Check) -> None:
         chk.fail("C10-D2", fi, fi.node, "unique-name postcondition",
                  "the returned name is not the one tested by `while name in "
                  "known`: a renamed anchor may collide with an existing one")
+    # names handed out in one pass are pairwise distinct: the caller's
+    # pool is computed once, so the routine itself must be injective over
+    # different source names.  Extending the *current candidate* is (the
+    # result of `s` is s_1_2.._k with every proper prefix taken; for another
+    # source t = s_1.._j the results part after position j: `_{j+1}` against
+    # `_1`); restarting from a base shared by several sources is not.
     rc = prog.func("Merger._resolve_anchor_conflicts")
+    if ok:
+        cand = src(whiles[0].test.left)  # type: ignore[attr-defined]
+        steps = [n for n in walk_local(whiles[0])
+                 if isinstance(n, ast.Assign) and src(n.targets[0]) == cand]
+        extending = True
+        for st in steps:
+            v = st.value
+            lead: Optional[ast.AST] = None
+            if isinstance(v, ast.Call) and \
+                    isinstance(v.func, ast.Attribute) and \
+                    v.func.attr == "format" and \
+                    isinstance(v.func.value, ast.Constant) and \
+                    str(v.func.value.value).startswith("{}") and v.args:
+                lead = v.args[0]
+            elif isinstance(v, ast.BinOp) and isinstance(v.op, ast.Add):
+                cur: ast.AST = v
+                while isinstance(cur, ast.BinOp):
+                    cur = cur.left
+                lead = cur
+            elif isinstance(v, ast.JoinedStr) and v.values and \
+                    isinstance(v.values[0], ast.FormattedValue):
+                lead = v.values[0].value
+            if lead is None or src(lead) != cand:
+                extending = False
+        pooled = False
+        for c in walk_local(rc.node):
+            if isinstance(c, ast.Call) and \
+                    src(c.func).endswith("._calc_unique_anchor"):
+                st_ = c
+                while parent(st_) is not None and \
+                        not isinstance(st_, ast.stmt):
+                    st_ = parent(st_)
+                if isinstance(st_, ast.Assign):
+                    res = src(st_.targets[0])
+                    pooled = any(
+                        isinstance(x, ast.Call) and
+                        isinstance(x.func, ast.Attribute) and
+                        x.func.attr in ("add", "append") and x.args and
+                        src(x.args[0]) == res
+                        for x in walk_local(rc.node)) or any(
+                            isinstance(x, ast.Subscript) and
+                            isinstance(x.ctx, ast.Store) and
+                            src(x.slice) == res
+                            for x in walk_local(rc.node))
+        if extending or pooled:
+            chk.ok("C10-D2", fi, whiles[0], "names of one pass are distinct",
+                   "each candidate extends the current candidate"
+                   if extending else "the caller records each name handed "
+                   "out")
+        else:
+            chk.fail("C10-D2", fi, whiles[0],
+                     "names of one pass are distinct",
+                     "candidates restart from a text other than the current "
+                     "candidate and the caller's pool is computed once: two "
+                     "conflicting anchors can be given the same new name "
+                     "(duplicate anchor in the result)")
     calls = [c for c in walk_local(rc.node) if isinstance(c, ast.Call)
              and src(c.func).endswith("._calc_unique_anchor")]
     if len(calls) == 1 and len(calls[0].args) == 2:
@@ -441,11 +535,49 @@ def d3c_recursion_forwards(chk: Check) -> None:
                                  else "?"))
 
 
+def d3d_leaf_is_registered(chk: Check) -> None:
+    """scan_for_anchors is also called on nodes that are no containers: the
+    elements of a sequence (through its own recursion) and a document whose
+    root is a bare anchored scalar (`--- &x 2`, merged into a list).  Its
+    last arm registers the anchor of *the node it was called on*.  Without
+    it no shared name is found for such a document: `stop` accepts a real
+    conflict, `rename` renames nothing, and the result defines the anchor
+    twice."""
+    prog = chk.prog
+    chk.rule("C10-D3d", "scan_for_anchors registers the anchor of the node "
+             "it is called on when that node is no mapping and no sequence",
+             floor=1)
+    fi = prog.func("Anchors.scan_for_anchors")
+    dom, table = fi.params()[0], fi.params()[1]
+    hits = []
+    for a in walk_local(fi.node):
+        if isinstance(a, ast.Assign) and \
+                src(a.targets[0]) == "{}[{}.anchor.value]".format(table, dom) \
+                and src(a.value) == dom:
+            negs = [f for f in facts_at(a) if f.kind == "cond" and not f.pol]
+            kinds = " ".join(src(f.expr) for f in negs)
+            if "CommentedMap" in kinds and "CommentedSeq" in kinds and \
+                    not any(isinstance(x, (ast.For, ast.While))
+                            for x in ancestors(a)):
+                hits.append(a)
+    if hits:
+        chk.ok("C10-D3d", fi, hits[0], "leaf arm of scan_for_anchors",
+               "`{}[{}.anchor.value] = {}` after the container arms".format(
+                   table, dom, dom))
+    else:
+        chk.fail("C10-D3d", fi, fi.node, "leaf arm of scan_for_anchors",
+                 "no arm registers the anchor of a node that is neither "
+                 "mapping nor sequence: an anchored scalar document root "
+                 "(and any anchored scalar reached by plain recursion) is "
+                 "invisible to conflict detection")
+
+
 def run(chk: Check) -> None:
     d1_policy(chk)
     d2_unique(chk)
     d3_traversal(chk)
     d3b_every_member(chk)
     d3c_recursion_forwards(chk)
+    d3d_leaf_is_registered(chk)
     d4_fresh_tables(chk)
     d5_no_live_mutation(chk)
